@@ -59,6 +59,12 @@ class Ctx:
     def quick(self):
         return self.tier != "thorough"
 
+    def n(self, quick_n, thorough_n):
+        """Size of a batch: the quick size, or the thorough size times VERIF_THOROUGH_SCALE (default 3)."""
+        if self.quick():
+            return quick_n
+        return thorough_n * max(1, int(os.environ.get("VERIF_THOROUGH_SCALE", "3")))
+
     # ---- K1 -----------------------------------------------------------------------------------
     def k1(self, cases, footprint=None):
         """Run real + model on cases; records diffs (restricted to `footprint(diff) -> bool` when given)."""
@@ -176,9 +182,9 @@ def random_items(ctx, n, simple_ratio=(1, 2), mutated=True):
 def body_C07(ctx):
     # every generated program under the kinds of all twelve names; aliases must give identical real output
     rng = ctx.rng
-    n = 60 if ctx.quick() else 600
+    n = ctx.n(60, 600)
     progs = [G.random_program(rng, "a1t1s1", simple=True) for _ in range(n)]
-    progs += [s for s, _ in G.fam_profiles(3, 3)][:: (4 if ctx.quick() else 1)]
+    progs += [s for s, _ in G.fam_profiles(3, 3)][:: (ctx.n(4, 1))]
     items = []
     for s in progs:
         for k in G.KINDS:
@@ -194,17 +200,17 @@ def body_C07(ctx):
     kprogs = []
     for kind in SYNC_KINDS:
         for name in k2.NAMES[kind]:
-            for _ in range(8 if ctx.quick() else 80):
+            for _ in range(ctx.n(8, 80)):
                 kprogs.append(k2.gen_scaffold(rng, "al%d" % len(kprogs), kind, name=name, max_branches=4, max_depth=3, fail_rate=(1, 8)))
     run_k2(ctx, kprogs)
-    k2async.body(ctx, n=32 if ctx.quick() else 320)
+    k2async.body(ctx, n=ctx.n(32, 320))
     for name in sorted(set(n for ns in k2.NAMES.values() for n in ns)):
         ctx.dist["k2:" + name] += 0
 
 
 def body_C20(ctx):
     rng = ctx.rng
-    n = 400 if ctx.quick() else 4000
+    n = ctx.n(400, 4000)
     items = random_items(ctx, n)
     items += [(rng.pick(G.KINDS), s, "malformed") for s in G.MALFORMED]
     cases = mk_cases(items)
@@ -282,7 +288,7 @@ def run_k2(ctx, progs, crate="k2sync"):
 
 def body_C05(ctx):
     import k2
-    n = 150 if ctx.quick() else 1500
+    n = ctx.n(150, 1500)
     # random try programs with raised failure rate, differing depths (the profile space where D1 lived)
     progs = scaffold_batch(ctx, ["a0t1s0", "a0t1s1"], n, fail_rate=(1, 4), max_depth=4, handler_rate=(1, 3))
     # all placements of one or two failures over small profiles
@@ -369,7 +375,7 @@ def judge_total(ctx, r, must_reject=None):
 
 def body_C15(ctx):
     rng = ctx.rng
-    n = 1500 if ctx.quick() else 20000
+    n = ctx.n(1500, 20000)
     items = []
     must = {}
     for src, why in INVALID + dup_option_inputs():
@@ -407,7 +413,7 @@ SYNC_KINDS = ["a0t0s0", "a0t1s0", "a0t0s1", "a0t1s1"]
 
 
 def body_C03(ctx):
-    n = 160 if ctx.quick() else 1600
+    n = ctx.n(160, 1600)
     progs = scaffold_batch(ctx, SYNC_KINDS, n, max_depth=4, max_branches=4, fail_rate=(1, 12), handler_rate=(1, 4), wrap_rate=(1, 4))
     import k2
     i = 0
@@ -426,7 +432,7 @@ def body_C03(ctx):
 
 def body_C08(ctx):
     import k2
-    n = 120 if ctx.quick() else 1200
+    n = ctx.n(120, 1200)
     spawn = ["a0t0s1", "a0t1s1"]
     progs = scaffold_batch(ctx, spawn, n, max_depth=4, max_branches=5, fail_rate=(1, 10), handler_rate=(1, 4))
     # liveness: all n sibling threads alive at once (a serialised expansion deadlocks at the gate -> watchdog)
@@ -450,7 +456,7 @@ def body_C08(ctx):
 def body_C14(ctx):
     import roundtrip as R
     rng = ctx.rng
-    progs = R.triple_progs(8 if ctx.quick() else 1) + [R.random_prog(rng) for _ in range(1000 if ctx.quick() else 8000)]
+    progs = R.triple_progs(ctx.n(8, 1)) + [R.random_prog(rng) for _ in range(ctx.n(1000, 8000))]
     reals, bad = R.run(ctx, progs, kinds=G.KINDS)
     ctx.k1_reals += reals[:3]
     for r in reals:
@@ -476,14 +482,14 @@ def body_C14(ctx):
         ctx.broken.append(("K1 generator correspondence (round-trip programs)", [d.to_json() for d in diffs[:3]]))
     # K1-parse: the parser model (Parse.lean, with syn's answers for each input) vs the real parser, on the round-trip
     # programs, the operator/wrapper/option/handler/let families, the malformed list and mutated programs
-    items = [(rng.pick(G.KINDS), s, "operators") for s in G.fam_operators()[:: (4 if ctx.quick() else 1)]]
-    items += [(rng.pick(G.KINDS), s, "pairs") for s in G.fam_pairs()[:: (4 if ctx.quick() else 1)]]
+    items = [(rng.pick(G.KINDS), s, "operators") for s in G.fam_operators()[:: (ctx.n(4, 1))]]
+    items += [(rng.pick(G.KINDS), s, "pairs") for s in G.fam_pairs()[:: (ctx.n(4, 1))]]
     items += [(rng.pick(G.KINDS), s, "wrappers") for s in G.fam_wrappers()]
-    items += [(k, s, "options") for k in ("a0t0s0", "a1t1s0") for s in G.fam_options(k)[:: (3 if ctx.quick() else 1)]]
+    items += [(k, s, "options") for k in ("a0t0s0", "a1t1s0") for s in G.fam_options(k)[:: (ctx.n(3, 1))]]
     items += [(rng.pick(G.KINDS), s, "handlers") for s in G.fam_handlers()]
     items += [(rng.pick(G.KINDS), s, "lets") for s in G.fam_lets()]
     items += [(rng.pick(G.KINDS), s, "malformed") for s in G.MALFORMED]
-    for _ in range(300 if ctx.quick() else 6000):
+    for _ in range(ctx.n(300, 6000)):
         kind = rng.pick(G.KINDS)
         src = G.random_program(rng, kind)
         items.append((kind, src, "random"))
@@ -513,7 +519,7 @@ def body_C14(ctx):
 def body_C04(ctx):
     import itertools
     import k2
-    n = 120 if ctx.quick() else 1200
+    n = ctx.n(120, 1200)
     progs = scaffold_batch(ctx, SYNC_KINDS, n, max_depth=4, max_branches=6, fail_rate=(0, 1), handler_rate=(1, 2), name_rate=(1, 3))
     profs = [(1,), (3,), (1, 2), (2, 1), (1, 3, 2), (3, 1, 3), (2, 2, 2), (1, 4, 2, 3), (4, 1, 1, 2), (1, 1, 3, 1, 2), (2, 1, 2, 1, 2, 1, 3)] if ctx.quick() \
         else [pr for nb in (1, 2, 3, 4) for pr in itertools.product((1, 2, 3), repeat=nb)]
@@ -528,7 +534,7 @@ def body_C04(ctx):
     aprofs = [(1, 3), (3, 1), (4, 1, 2), (1, 4, 2), (2, 1, 4), (1, 1, 3)] if ctx.quick() else \
         [pr for nb in (2, 3) for pr in itertools.product((1, 2, 3, 4), repeat=nb)]
     k2async.body(ctx, n=0, profiles=aprofs, fail_rate=(0, 1), handler_rate=(1, 2), name_rate=(1, 3), block_rate=(0, 1))
-    items = [(k, s, "profiles") for s, _ in G.fam_profiles(4, 3)[:: (3 if ctx.quick() else 1)] for k in G.KINDS]
+    items = [(k, s, "profiles") for s, _ in G.fam_profiles(4, 3)[:: (ctx.n(3, 1))] for k in G.KINDS]
     items += [(k, s, "large") for s in G.fam_large() for k in G.KINDS]
     ctx.k1(mk_cases(items))
     ctx.out.coverage["rule"] = ("all-success programs over enumerated and random depth profiles (1–7 branches), with/without handler and "
@@ -538,7 +544,7 @@ def body_C04(ctx):
 
 
 def body_C06(ctx):
-    n = 200 if ctx.quick() else 2000
+    n = ctx.n(200, 2000)
     progs = scaffold_batch(ctx, ["a0t1s0", "a0t1s1"], n, fail_rate=(1, 3), max_depth=4, handler_rate=(2, 3), block_rate=(1, 3))
     run_k2(ctx, progs)
     ctx.out.coverage["rule"] = ("try macros with failure rate 1/3 per fallible operator, handlers in 2/3 of the programs, block captures: "
@@ -547,7 +553,7 @@ def body_C06(ctx):
 
 
 def body_C11(ctx):
-    n = 160 if ctx.quick() else 1600
+    n = ctx.n(160, 1600)
     progs = scaffold_batch(ctx, SYNC_KINDS, n, block_rate=(2, 3), max_depth=3, fail_rate=(1, 10), name_rate=(1, 3))
     run_k2(ctx, progs)
     items = [(ctx.rng.pick(G.KINDS), s, "operators") for s in G.fam_operators() if "{" in s]
@@ -559,7 +565,7 @@ def body_C11(ctx):
 
 
 def body_C12(ctx):
-    n = 160 if ctx.quick() else 1600
+    n = ctx.n(160, 1600)
     progs = scaffold_batch(ctx, SYNC_KINDS, n, block_rate=(1, 2), name_rate=(2, 3), max_depth=4, fail_rate=(1, 10))
     run_k2(ctx, progs)
     items = [(ctx.rng.pick(G.KINDS), s, "lets") for s in G.fam_lets()]
@@ -570,7 +576,7 @@ def body_C12(ctx):
 
 
 def body_C13(ctx):
-    n = 160 if ctx.quick() else 1600
+    n = ctx.n(160, 1600)
     progs = scaffold_batch(ctx, SYNC_KINDS, n, handler_rate=(1, 1), fail_rate=(1, 5), max_depth=3)
     run_k2(ctx, progs)
     items = [(k, s, "handlers") for s in G.fam_handlers() for k in G.KINDS]
@@ -597,7 +603,7 @@ def body_C13(ctx):
 
 
 def body_C18(ctx):
-    n = 200 if ctx.quick() else 2000
+    n = ctx.n(200, 2000)
     progs = scaffold_batch(ctx, SYNC_KINDS, n, panic_rate=(1, 8), max_depth=3, handler_rate=(1, 2), block_rate=(1, 3))
     run_k2(ctx, progs)
     # async variants (incl. the tokio task-spawning ones): one panicking callback, the driven future must panic
@@ -643,11 +649,11 @@ def run_chains(ctx, n, wrappers, tag):
 
 def body_C01(ctx):
     items = [(ctx.rng.pick(G.KINDS), s, "operators") for s in G.fam_operators()]
-    items += [(ctx.rng.pick(G.KINDS), s, "pairs") for s in G.fam_pairs()[:: (3 if ctx.quick() else 1)]]
-    items += random_items(ctx, 300 if ctx.quick() else 5000, mutated=False)
+    items += [(ctx.rng.pick(G.KINDS), s, "pairs") for s in G.fam_pairs()[:: (ctx.n(3, 1))]]
+    items += random_items(ctx, ctx.n(300, 5000), mutated=False)
     ctx.k1(mk_cases(items))
     table_probes(ctx)
-    run_chains(ctx, 250 if ctx.quick() else 3000, (1, 6), "C01")
+    run_chains(ctx, ctx.n(250, 3000), (1, 6), "C01")
     ctx.out.coverage["rule"] = ("K1: every operator × {plain, ~} × operand shapes, adjacent operator pairs, random programs; determiner "
                                 "probes: all token sequences of length ≤3 (+4 after `?`) over the operator alphabet in joint and alone spacing "
                                 "against the real check_input; K2-chains: type-directed chains over Option / Result / iterators / integers "
@@ -658,7 +664,7 @@ def body_C01(ctx):
 def body_C02(ctx):
     items = [(k, s, "wrappers") for s in G.fam_wrappers() for k in ([ctx.rng.pick(G.KINDS)] if ctx.quick() else G.KINDS)]
     ctx.k1(mk_cases(items))
-    run_chains(ctx, 250 if ctx.quick() else 3000, (1, 2), "C02")
+    run_chains(ctx, ctx.n(250, 3000), (1, 2), "C02")
     ctx.out.coverage["rule"] = ("K1: ten wrapper operators × depth ≤3 × inner chains (empty, plain, with block captures, fold) × explicit / "
                                 "implicit (branch end, step end) / partial closing; K2-chains with wrappers (nested, implicit close, after-`<<<` "
                                 "continuation) against hand-nested plain closures")
@@ -706,14 +712,14 @@ def marker_oracle(ctx, reals, pid):
 
 
 def body_C10(ctx):
-    items = [(k, s, "profiles") for s, _ in G.fam_profiles(4, 3)[:: (5 if ctx.quick() else 1)] for k in G.KINDS]
+    items = [(k, s, "profiles") for s, _ in G.fam_profiles(4, 3)[:: (ctx.n(5, 1))] for k in G.KINDS]
     items += [(ctx.rng.pick(G.KINDS), s, "operators") for s in G.fam_operators()]
     items += [(ctx.rng.pick(G.KINDS), s, "wrappers") for s in G.fam_wrappers()]
     items += [(ctx.rng.pick(G.KINDS), s, "handlers") for s in G.fam_handlers()]
-    items += random_items(ctx, 400 if ctx.quick() else 6000, mutated=False)
+    items += random_items(ctx, ctx.n(400, 6000), mutated=False)
     reals, _ = ctx.k1(mk_cases(items))
     marker_oracle(ctx, reals, "C10")
-    n = 150 if ctx.quick() else 1500
+    n = ctx.n(150, 1500)
     progs = scaffold_batch(ctx, SYNC_KINDS, n, block_rate=(1, 3), handler_rate=(1, 2), fail_rate=(1, 8), max_depth=4)
     run_k2(ctx, progs)
     ctx.out.coverage["rule"] = ("K1 on programs whose operands are unique markers, with the oracle: every user token occurring once in the "
@@ -726,7 +732,7 @@ def body_C09(ctx):
     akinds = [k for k in G.KINDS if k[1] == "1"]
     items = [(k, s, "profiles") for s, _ in G.fam_profiles(3, 3) for k in akinds]
     items += [(ctx.rng.pick(akinds), s, "operators") for s in G.fam_operators()]
-    items += [(k, s, "random") for (k0, s, f) in random_items(ctx, 300 if ctx.quick() else 4000, mutated=False) for k in [ctx.rng.pick(akinds)]]
+    items += [(k, s, "random") for (k0, s, f) in random_items(ctx, ctx.n(300, 4000), mutated=False) for k in [ctx.rng.pick(akinds)]]
     reals, _ = ctx.k1(mk_cases(items))
     for r in reals:
         if r.parse == "ok" and r.gen == "ok":
@@ -811,7 +817,7 @@ def body_C16(ctx):
 
 def body_C17(ctx):
     items = [(k, s, "large") for s in G.fam_large() for k in G.KINDS]
-    items += [(k, s, "profiles") for s, _ in G.fam_profiles(4, 3)[:: (7 if ctx.quick() else 1)] for k in G.KINDS]
+    items += [(k, s, "profiles") for s, _ in G.fam_profiles(4, 3)[:: (ctx.n(7, 1))] for k in G.KINDS]
     ctx.k1(mk_cases(items))
     # names: the model's rendering (from the regenerated format table) vs the running name constructors
     path = os.path.join(runner.BUILD, "harness_tables.txt")
@@ -829,7 +835,7 @@ def body_C17(ctx):
     k2.run_nesting_programs(ctx)
     # hoisted-operand names in use: programs in which most operands (of every operator kind, incl. the error combinators and
     # initial values) are blocks, several branches and positions -> a clash makes a branch run another branch's callback
-    progs = scaffold_batch(ctx, SYNC_KINDS, 100 if ctx.quick() else 1000, max_depth=3, max_branches=5, block_rate=(3, 4),
+    progs = scaffold_batch(ctx, SYNC_KINDS, ctx.n(100, 1000), max_depth=3, max_branches=5, block_rate=(3, 4),
                            fail_rate=(1, 4), handler_rate=(1, 4), name_rate=(1, 4))
     run_k2(ctx, progs)
     ctx.k1(mk_cases([(p.kind, p.macro_input(), "k2-blocks") for p in progs], start=300000))
@@ -841,7 +847,7 @@ def body_C17(ctx):
 
 def body_C19(ctx):
     items = [(k, s, "profiles") for s, _ in G.fam_profiles(3, 3) for k in ("a0t0s0", "a0t1s0")]
-    items += [(ctx.rng.pick(["a0t0s0", "a0t1s0"]), s, f) for (k, s, f) in random_items(ctx, 400 if ctx.quick() else 5000, mutated=False)]
+    items += [(ctx.rng.pick(["a0t0s0", "a0t1s0"]), s, f) for (k, s, f) in random_items(ctx, ctx.n(400, 5000), mutated=False)]
     reals, _ = ctx.k1(mk_cases(items))
     bad_words = ["i:Box", "i:clone", "i:Clone", "i:Send", "i:Sync", "i:static", "i:format", "i:spawn", "i:Arc", "i:Rc", "i:Vec", "i:String",
                  "i:to_owned", "i:to_string", "i:async", "i:thread"]
